@@ -191,6 +191,11 @@ def classify(expr, fn_src, pos, depth=0):
         if ms:
             cls, why = classify(ms.group(1), fn_src, l.start(), depth + 1)
             return cls, why + ", then byte-sliced"
+        mc = re.fullmatch(r"(\w+)\(\s*&?\s*(\w+)\s*\)", rhs)
+        if mc and is_prefix_cut_helper(mc.group(1)):
+            # a helper that returns its argument or a prefix `&s[..end]` of it (cut moved to a character boundary)
+            cls, why = classify(mc.group(2), fn_src, l.start(), depth + 1)
+            return cls, why + ", then byte-sliced"
         return "raw", "bound to: " + re.sub(r"\s+", " ", rhs)[:50]
     # for-bindings and parameters
     if re.search(r"for\s+" + re.escape(e) + r"\s+in\s+keys\.iter\(\)", before) and re.search(r"keys:\s*&\[ingress::IngressId\]", before):
@@ -202,6 +207,49 @@ def classify(expr, fn_src, pos, depth=0):
         if e == "http_api_path" and API_PATH_IS_CONFIG: return "safe", "configuration: unit's http_api_path through encode_double_quoted_attribute (router_list/request.rs)"
         return "raw", f"parameter of type {ty}"
     return "raw", "origin not found"
+
+
+CUR_SRC = [""]
+
+
+def is_prefix_cut_helper(name):
+    """`fn name(s: &str) -> &str` whose body only measures `s` (len, is_char_boundary, integer arithmetic on a local
+    index) and returns `s` or `&s[..<index>]`: the result is a prefix of the argument. Anything else: not recognised."""
+    src = CUR_SRC[0]
+    m = re.search(r"\bfn\s+" + re.escape(name) + r"\s*\(\s*(\w+)\s*:\s*&\s*str\s*\)\s*->\s*&\s*str\s*\{", src)
+    if not m:
+        return False
+    p, i, depth = m.group(1), m.end(), 1
+    while i < len(src) and depth:
+        depth += {"{": 1, "}": -1}.get(src[i], 0); i += 1
+    body = src[m.end():i - 1]
+    body = re.sub(r"&\s*" + re.escape(p) + r"\s*\[\s*\.\.\s*\w+\s*\]", " CUT ", body)      # &s[..end]
+    body = re.sub(re.escape(p) + r"\s*\.\s*(len|is_char_boundary)\s*\(", " MEASURE( ", body)
+    toks = re.findall(r"[A-Za-z_]\w*|\d+|\S", body)
+    allowed = {"CUT", "MEASURE", p, "if", "else", "while", "let", "mut", "return", "(", ")", "{", "}", ";", "=", "+", "-", ">", "<", "!", "-=", "+="}
+    return "CUT" in toks and all(t in allowed or re.fullmatch(r"\d+|[A-Z][A-Z0-9_]*|[a-z_]\w*", t) and t not in ("unsafe", "as") for t in toks) \
+        and "[" not in toks and "." not in toks and "&" not in toks
+
+
+def fn_spans(src):
+    """(start, end, name) of every `fn` with a body; nested fns are included (callers pick the outermost)."""
+    out = []
+    for m in re.finditer(r"\bfn\s+(\w+)\s*[<(]", src):
+        i = m.end(); par = 0
+        while i < len(src):                      # find the body's opening brace (skip the signature)
+            c = src[i]
+            if c in "(<[": par += 1
+            elif c in ")>]": par -= 1 if not (c == ">" and src[i - 1] == "-") else 0
+            elif c == ";" and par <= 0: i = -1; break
+            elif c == "{" and par <= 0: break
+            i += 1
+        if i < 0 or i >= len(src):
+            continue
+        j, depth = i + 1, 1
+        while j < len(src) and depth:
+            depth += {"{": 1, "}": -1}.get(src[j], 0); j += 1
+        out.append((m.start(), j, m.group(1)))
+    return out
 
 
 def lean_str(s):
@@ -222,7 +270,10 @@ for prefix, rel in FILES:
         src = strip_comments(open(path).read())
     except OSError as ex:
         die(f"cannot read {path}: {ex}")
-    fns = [(m.start(), m.group(1)) for m in re.finditer(r"\bfn\s+(\w+)\s*[<(]", src)]
+    CUR_SRC[0] = src
+    spans = fn_spans(src)
+    # a template belongs to the outermost function around it: helper fns nested in a function body do not rename it
+    fns = [(a, n) for a, b, n in spans if not any(a2 < a and b <= b2 for a2, b2, _ in spans)]
     if not fns:
         die(f"no functions found in {rel}")
     counters = {}
